@@ -40,6 +40,7 @@ type dfault struct {
 	kind           int // 0 = error without writing, 1 = torn then die, 2 = complete then die, 3 = cut at a byte offset then die
 	kh, kc, kk, kr bool
 	frac           float64 // kind 3: where the file is cut, as a fraction of its length
+	edge           int     // kind 3: >= 0: cut next to a structural boundary instead (hash line, BEGIN/END lines), which one and how far from it
 	cutAt, cutLen  int     // kind 3: what happened
 }
 
@@ -92,6 +93,28 @@ func (l lfs) WriteFile(name string, content []byte) error {
 		// library's PEM decoder (not with gopki) and handed to the model as the set of blocks kept
 		l.flt.cutLen = len(content)
 		l.flt.cutAt = int(l.flt.frac * float64(len(content)+1))
+		if l.flt.edge >= 0 {
+			// inside the hash line, or within three bytes of where a line of dashes starts or ends
+			bounds := []int{0, 6, bytes.IndexByte(content, '\n'), bytes.IndexByte(content, '\n') + 1}
+			for off := 0; ; {
+				ix := bytes.Index(content[off:], []byte("-----"))
+				if ix < 0 {
+					break
+				}
+				bounds = append(bounds, off+ix, off+ix+5)
+				off += ix + 5
+			}
+			b := bounds[l.flt.edge%len(bounds)]
+			if l.flt.edge%len(bounds) == 1 {
+				b = 6 + (l.flt.edge/len(bounds))%30 // anywhere inside the base64 text of the hash line
+			} else {
+				b += (l.flt.edge/len(bounds))%7 - 3
+			}
+			if b < 0 {
+				b = 0
+			}
+			l.flt.cutAt = b
+		}
 		if l.flt.cutAt > len(content) {
 			l.flt.cutAt = len(content)
 		}
@@ -119,6 +142,7 @@ type dent struct {
 	srsa      bool // configured signature algorithm needs an RSA signer
 	prof      bool // references the shared profile profiles/shared.yaml
 	vstyle    int  // validity block style, constant over the history
+	vver      int  // edits of the validity block within its style (another end date / duration)
 	layout    int  // 0: e<i>.yaml, 1: sub/e<i>.yml, 2: deep/er/e<i>.json-free yaml with explicit alias in x<i>.yaml
 }
 
@@ -158,14 +182,16 @@ func (e dent) yaml(i int) string {
 	}
 	switch e.vstyle {
 	case 0:
-		s += "validity:\n  from: 2024-01-01\n  until: 2090-01-01\n"
+		s += fmt.Sprintf("validity:\n  from: 2024-01-01\n  until: %d-01-01\n", 2090+e.vver)
 	case 1:
-		s += "validity:\n  until: 2091-02-03\n"
+		s += fmt.Sprintf("validity:\n  until: %d-02-03\n", 2091+e.vver)
 	case 2:
-		s += "validity:\n  duration: 30y\n"
+		s += fmt.Sprintf("validity:\n  duration: %s\n", relDuration(e.vver))
 	case 3:
 	case 4:
-		s += "validity:\n  from: 2024-02-29\n  duration: 40y1m\n"
+		s += fmt.Sprintf("validity:\n  from: 2024-02-29\n  duration: 40y%dm\n", 1+e.vver)
+	case 5: // expired on purpose (a test certificate): explicit start, short duration, end in the past
+		s += fmt.Sprintf("validity:\n  from: 2020-01-01\n  duration: 1y%dd\n", e.vver)
 	}
 	s += fmt.Sprintf("extensions:\n  - custom:\n      oid: 1.2.3.%d\n      raw: \"!null\"\n", e.vis)
 	if e.issuer >= 0 {
@@ -183,6 +209,38 @@ func (e dent) yaml(i int) string {
 	}
 	return s
 }
+// run-relative durations, all of different length (the abstract model equates "other text" with "other certificate")
+func relDuration(v int) string {
+	if v%2 == 1 {
+		return fmt.Sprintf("%dm", (30+v)*12)
+	}
+	return fmt.Sprintf("%dy", 30+v)
+}
+
+// expected end of validity (ok = false: run-relative, only the length is known)
+func (e dent) wantNotAfter() (time.Time, bool) {
+	switch e.vstyle {
+	case 0:
+		return time.Date(2090+e.vver, 1, 1, 0, 0, 0, 0, time.UTC), true
+	case 1:
+		return time.Date(2091+e.vver, 2, 3, 0, 0, 0, 0, time.UTC), true
+	case 4:
+		return time.Date(2024, 2, 29, 0, 0, 0, 0, time.UTC).AddDate(40, 1+e.vver, 0), true
+	case 5:
+		return time.Date(2020, 1, 1, 0, 0, 0, 0, time.UTC).AddDate(1, 0, e.vver), true
+	}
+	return time.Time{}, false
+}
+
+// length of a run-relative validity applied to a start date
+func (e dent) relEnd(from time.Time) (time.Time, bool) {
+	if e.vstyle != 2 {
+		return time.Time{}, false
+	}
+	ymd := [3]int{30 + e.vver, 0, 0}
+	return from.AddDate(ymd[0], ymd[1], ymd[2]), true
+}
+
 func ktn(r bool) string {
 	if r {
 		return "RSA"
@@ -198,7 +256,8 @@ func (e dent) coq() string {
 	if e.prof {
 		vis += 1000 * (profVersion + 1) // the visible content includes what the profile contributes
 	}
-	return fmt.Sprintf("(mkCfg %s %d %d 0 %s %s true true true)", iss, e.subj, vis, ktn(e.krsa), ktn(e.srsa))
+	vis += 100000 * e.vver // the validity block is part of the visible content
+	return fmt.Sprintf("(mkCfg %s %d %d 0 %s %s true %s true)", iss, e.subj, vis, ktn(e.krsa), ktn(e.srsa), bs(e.vstyle != 5))
 }
 
 type fileView struct {
@@ -257,6 +316,15 @@ func bs(x bool) string {
 }
 
 type pubEq interface{ Equal(x crypto.PublicKey) bool }
+type privEq interface{ Equal(x crypto.PrivateKey) bool }
+
+// the same private key, however it is encoded (gopki re-writes a key file in its own fixed-width form)
+func sameKey(a, b crypto.Signer) bool {
+	if x, ok := a.(privEq); ok {
+		return x.Equal(b)
+	}
+	return false
+}
 
 func observeDir(m fstest.MapFS, prev map[int]fileView, ents []dent) (string, map[int]fileView) {
 	var sb []string
@@ -294,6 +362,12 @@ func observeDir(m fstest.MapFS, prev map[int]fileView, ents []dent) (string, map
 				}
 			}
 			refl = v.crt.Subject.CommonName == want && hasExt && ((e.prof && hasProf) || (!e.prof && !anyProf))
+			if wa, ok := e.wantNotAfter(); ok && !v.crt.NotAfter.Equal(wa) {
+				refl = false
+			}
+			if wa, ok := e.relEnd(v.crt.NotBefore); ok && !v.crt.NotAfter.Equal(wa) {
+				refl = false
+			}
 		}
 		if v.crt != nil && v.key != nil && v.crt.PublicKey != nil {
 			if pk, ok := v.crt.PublicKey.(pubEq); ok {
@@ -320,7 +394,7 @@ func observeDir(m fstest.MapFS, prev map[int]fileView, ents []dent) (string, map
 			}
 		}
 		if p, ok := prev[i]; ok {
-			keysame = v.key != nil && p.key != nil && bytes.Equal(v.keyDER, p.keyDER)
+			keysame = v.key != nil && p.key != nil && sameKey(v.key, p.key)
 			reqsame = v.req != nil && p.req != nil && bytes.Equal(v.reqDER, p.reqDER)
 		}
 		sb = append(sb, fmt.Sprintf("(%d, [%s;%s;%s;%s;%s;%s;%s;%s;%s;%s])", i, bs(v.hash), bs(v.crt != nil), bs(v.key != nil), bs(v.req != nil), bs(match), bs(chain), bs(mreq), bs(keysame), bs(reqsame), bs(refl)))
@@ -363,7 +437,7 @@ func oneHistory(h int, faults bool) {
 	m["README.txt"] = &fstest.MapFile{Data: []byte("not a config\n"), Mode: 0644, ModTime: dtm(0)}
 	m["notes.yaml"] = &fstest.MapFile{Data: []byte("just: a yaml file without version\n"), Mode: 0644, ModTime: dtm(0)}
 	m["sub/stray.pem"] = &fstest.MapFile{Data: []byte("-----BEGIN CERTIFICATE-----\nAAAA\n-----END CERTIFICATE-----\n"), Mode: 0644, ModTime: dtm(0)}
-	flt := dfault{at: -1}
+	flt := dfault{at: -1, edge: -1}
 	l := lfs{m, &clock, &writes, &flt}
 	ne := 3 + rng.Intn(3)
 	ents := make([]dent, ne)
@@ -375,6 +449,9 @@ func oneHistory(h int, faults bool) {
 		ents[i].krsa = rng.Intn(6) == 0
 		ents[i].prof = rng.Intn(3) == 0
 		ents[i].vstyle = rng.Intn(5)
+		if rng.Intn(9) == 0 {
+			ents[i].vstyle = 5
+		}
 		ents[i].layout = rng.Intn(3)
 	}
 	for i := range ents {
@@ -423,18 +500,18 @@ func oneHistory(h int, faults bool) {
 		}
 		switch {
 		case r < 42:
-			strat := []int{9, 9, 9, 9, 1, 8, 4, 13, 25, 12, 5, 16}[rng.Intn(12)]
+			strat := []int{9, 9, 9, 9, 1, 8, 4, 13, 25, 12, 5, 16, 2, 11, 10, 6, 14, 3}[rng.Intn(18)]
 			if lastOk && rng.Intn(2) == 0 {
 				strat = lastStrat // "again with the same flags right after a successful run"
 			}
 			writes = nil
 			res := "ok"
-			flt = dfault{at: -1}
+			flt = dfault{at: -1, edge: -1}
 			fs_ := "None"
 			faulty := faults && rng.Intn(100) < 45
 			faultAt := -1
 			if faulty {
-				flt = dfault{at: rng.Intn(ne), kind: rng.Intn(4), kh: rng.Intn(2) == 1, kc: rng.Intn(2) == 1, kk: rng.Intn(2) == 1, kr: rng.Intn(2) == 1, frac: rng.Float64()}
+				flt = dfault{at: rng.Intn(ne), kind: rng.Intn(4), kh: rng.Intn(2) == 1, kc: rng.Intn(2) == 1, kk: rng.Intn(2) == 1, kr: rng.Intn(2) == 1, frac: rng.Float64(), edge: rng.Intn(2000) - 1000}
 				faultAt = flt.at
 			}
 			before := snapshotNonPem(m)
@@ -504,7 +581,11 @@ func oneHistory(h int, faults bool) {
 			putcfg(i)
 			ops = append(ops, fmt.Sprintf("U (OpEditCfg %d %s)", i, ents[i].coq()))
 		case r < 62:
-			ents[i].vis++
+			if rng.Intn(2) == 0 && ents[i].vstyle != 3 {
+				ents[i].vver++ // only the validity block changes
+			} else {
+				ents[i].vis++
+			}
 			putcfg(i)
 			ops = append(ops, fmt.Sprintf("U (OpEditCfg %d %s)", i, ents[i].coq()))
 		case r < 66: // change the issuer (may create a cycle or a self-loop: the run must then be refused)
@@ -559,18 +640,49 @@ func oneHistory(h int, faults bool) {
 			clock++
 			nuser++
 			k, _ := ecdsa.GenerateKey(elliptic.P256(), crand.Reader)
+			variant := rng.Intn(8)
+			if variant == 0 || variant == 1 {
+				// a key whose scalar starts with a zero octet, stored without it (as older OpenSSL wrote such keys)
+				sc := make([]byte, 31)
+				crand.Read(sc)
+				sc[0] |= 1
+				k = ecKey("P-256", new(big.Int).SetBytes(sc))
+			}
+			expired := rng.Intn(5) == 0
+			na := time.Now().Add(20 * 365 * 24 * time.Hour)
+			if expired {
+				na = time.Now().Add(-30 * time.Minute)
+			}
 			tmpl := &x509.Certificate{SerialNumber: big.NewInt(int64(7000 + nuser)), Subject: pkix.Name{CommonName: fmt.Sprintf("user %d", nuser)},
-				NotBefore: time.Now().Add(-time.Hour), NotAfter: time.Now().Add(20 * 365 * 24 * time.Hour), IsCA: true, BasicConstraintsValid: true}
+				NotBefore: time.Now().Add(-time.Hour), NotAfter: na, IsCA: true, BasicConstraintsValid: true}
 			der, _ := x509.CreateCertificate(crand.Reader, tmpl, tmpl, k.Public(), k)
 			kder, _ := x509.MarshalPKCS8PrivateKey(k)
+			if variant == 0 || variant == 1 {
+				kder = handPkcs8("P-256", k.D, 31, k, 0, true, false)
+			}
 			var o bytes.Buffer
-			pem.Encode(&o, &pem.Block{Type: "CERTIFICATE", Bytes: der})
-			pem.Encode(&o, &pem.Block{Type: "PRIVATE KEY", Bytes: kder})
+			if variant == 2 || variant == 3 {
+				// explanatory text in front of the blocks, as `openssl pkcs12` writes it; up to 70 KB of it
+				n := 1 + rng.Intn(40)
+				if variant == 3 {
+					n = 300 + rng.Intn(1200)
+				}
+				for j := 0; j < n; j++ {
+					fmt.Fprintf(&o, "Bag Attributes\n    friendlyName: user %d line %d\n    localKeyID: 01 02 03\n", nuser, j)
+				}
+			}
+			if variant == 4 {
+				pem.Encode(&o, &pem.Block{Type: "PRIVATE KEY", Bytes: kder})
+				pem.Encode(&o, &pem.Block{Type: "CERTIFICATE", Bytes: der})
+			} else {
+				pem.Encode(&o, &pem.Block{Type: "CERTIFICATE", Bytes: der})
+				pem.Encode(&o, &pem.Block{Type: "PRIVATE KEY", Bytes: kder})
+			}
 			if rng.Intn(3) == 0 {
 				o.WriteString("\n") // a trailing blank line, as editors leave it
 			}
 			m[ents[i].pemPath(i)] = &fstest.MapFile{Data: o.Bytes(), Mode: 0644, ModTime: dtm(clock)}
-			ops = append(ops, fmt.Sprintf("U (OpReplaceUser %d (mkCert %d 0 0 %d %d %d false) (mkKey %d EC))", i, 800+nuser, 800+nuser, 900+nuser, 900+nuser, 900+nuser))
+			ops = append(ops, fmt.Sprintf("U (OpReplaceUser %d (mkCert %d 0 0 %d %d %d %s) (mkKey %d EC))", i, 800+nuser, 800+nuser, 900+nuser, 900+nuser, bs(expired), 900+nuser))
 		default:
 			clock++
 			name := ents[i].pemPath(i)
